@@ -6,7 +6,7 @@ pub fn start() {
     compiler::verif_hooks::start();
 }
 
-/// events of the kinds asked for ("mono": ensure/seeded/pop/emit/drained/tensure, "dce": pre_dce, "gensym", "solver": solve_start/solve_round)
+/// events of the kinds asked for ("mono": ensure/seeded/pop/emit/drained/tensure, "dce": pre_dce, "gensym", "solver": solve_start/solve_round, "unify": unify_call/unify_ok/unify_ret/unify_field_ok)
 pub fn take(kinds: &[String]) -> Vec<Value> {
     let want = |ev: &str| -> bool {
         let kind = match ev {
@@ -14,6 +14,7 @@ pub fn take(kinds: &[String]) -> Vec<Value> {
             "pre_dce" => "dce",
             "gensym" => "gensym",
             "solve_start" | "solve_round" => "solver",
+            "unify_call" | "unify_ok" | "unify_ret" | "unify_field_ok" => "unify",
             _ => "other",
         };
         kinds.iter().any(|k| k == kind || k == "all")
